@@ -32,7 +32,9 @@ RULE = ("sequences of 0-7 header lines over the pragma grammar: start symbol, ke
         "same pragmas parsed afresh); LineReader cases (text in io.StringIO, MafHeader.from_line_reader, then line_number, "
         "peek_line and up to four read_line calls; empty lines inside and around the pragma block); argument cases "
         "(from_defaults and from_reader with every truthy/falsy combination of version, annotation, sort order by name "
-        "or instance with and without own contigs, contigs). "
+        "or instance with and without own contigs, contigs); report cases (a whole defective file read in Silent mode: "
+        "reader.header().validation_errors after opening, after reading, and of a from_reader-derived header must be the "
+        "header's own). "
         "non-trivial: at least two records kept, or a diagnostic reported, or a mutation applied; distinct by case hash")
 ASSUMPTIONS = [
     "lib/Str.v is_space equals str.isspace on every code point (checked by an exhaustive sweep each run)",
@@ -189,6 +191,13 @@ def _lr_case(rng):
             "reads": rng.randint(0, 4), "last_eol": rng.random() < 0.8}
 
 
+def _hdr_report_case(rng):
+    """a whole file with errors beyond the header (column line, data lines): the header's own report must stay
+    the header's"""
+    c = R.gen_reader_case(rng, rng.choice(["defect", "adversarial"]))
+    return {"kind": "report", "stream": "report", "lines": c["lines"], "override": c["override"]}
+
+
 def _args_case(rng):
     """from_defaults / from_reader with every combination of truthy and falsy arguments"""
     src = None
@@ -213,6 +222,8 @@ def corpus():
         # an empty line inside the pragma block ends the block (and the LineReader never gets past it)
         {"kind": "linereader", "stream": "corpus", "lines": ["#version gdc-1.0.0", "", "#k v", "a\tb"], "mode": "Silent",
          "reads": 3, "last_eol": True},
+        # the header's own report while the reader records column-line and data-line errors
+        {"kind": "report", "stream": "corpus", "lines": ["#k", "#version gdc-1.0.0", "a\tb", "1"], "override": None},
         {"kind": "args", "stream": "corpus", "src": None, "version": "gdc-1.0.0", "annotation": "", "so":
             ["inst", "Coordinate", ["s1", "s2"]], "contigs": None},
         {"kind": "args", "stream": "corpus", "src": ["#version v1", "#contigs a,b", "#sort.order Coordinate"],
@@ -253,6 +264,8 @@ def generate(rng, n):
         out.append(_lr_case(rng))
     for _ in range(max(30, n // 10) * args_share):
         out.append(_args_case(rng))
+    for _ in range(max(30, n // 12) * (3 if R.focused("reader.py") else 1)):
+        out.append(_hdr_report_case(rng))
     n = max(n, len(out) + n // 3)        # the pragma-grammar streams always keep at least a third of the budget
     nd = max(20, n // 8)
     for _ in range(nd):
@@ -286,6 +299,8 @@ def to_model(case):
         return R.wire_header(case["lines"], case["mode"])
     if case["kind"] == "ops":
         return R.wire_header_ops(case["lines"], case["ops"])
+    if case["kind"] == "report":
+        return R.wire_reader(case["lines"], "Silent", case["override"])
     if case["kind"] == "linereader":
         return R.wire_line_reader(case["lines"], case["mode"], case["reads"], case["last_eol"])
     if case["kind"] == "args":
@@ -298,6 +313,8 @@ def run_impl(case):
         return R.impl_header(case["lines"], case["mode"])
     if case["kind"] == "ops":
         return R.impl_header_ops(case["lines"], case["ops"], case["derive"])
+    if case["kind"] == "report":
+        return R.impl_reader_header_report(case["lines"], case["override"])
     if case["kind"] == "linereader":
         return R.impl_line_reader(case["lines"], case["mode"], case["reads"], case["last_eol"])
     if case["kind"] == "args":
@@ -310,6 +327,12 @@ def from_model(case, sx):
         return R.dec_header(sx)
     if case["kind"] == "ops":
         return R.dec_header_ops(sx)
+    if case["kind"] == "report":
+        r = R.dec_reader(sx)        # the model's reader: its header value is what the header reports, throughout
+        if r["init"][0] != "ok":
+            return {"opened": None}
+        he = r["init"][1]["header"]["errs"]
+        return {"opened": he, "reader_opened": r["init"][1]["errs"], "read": he, "reader_read": r["errs"], "derived": he}
     if case["kind"] == "linereader":
         return R.dec_line_reader(sx)
     if case["kind"] == "args":
@@ -428,8 +451,20 @@ def _args_oracle(case, obs):
     return out
 
 
+def _report_oracle(case, obs):
+    """reader.header().validation_errors is the header's own report: what from_lines gives for the pragma lines -
+    right after opening, after the records were read, and in a header derived with from_reader"""
+    out = []
+    for when in ("opened", "read", "derived"):
+        if obs[when] != obs["_fresh"]:
+            out.append("header-report-%s %r but-the-header-lines-give %r" % (when, obs[when][:6], obs["_fresh"][:6]))
+    return out
+
+
 def oracle(case, obs):
     out = []
+    if case["kind"] == "report":
+        return _report_oracle(case, obs)
     if case["kind"] == "ops":
         return _ops_oracle(case, obs)
     if case["kind"] == "linereader":
@@ -500,6 +535,11 @@ def signature(case, violation):
 
 
 def classify(case, obs):
+    if case["kind"] == "report":
+        if obs is None:
+            return "report/error"
+        extra = len(obs["reader_read"]) - len(obs["read"])
+        return "report/non-header-errors=%s" % ("0" if extra <= 0 else "1+")
     if case["kind"] == "linereader":
         return "linereader/%s/%s" % (case["mode"], "empty-line" if "" in case["lines"] else "no-empty-line")
     if case["kind"] == "args":
@@ -522,6 +562,8 @@ def classify(case, obs):
 
 
 def nontrivial(case, obs):
+    if case["kind"] == "report":
+        return len(obs["reader_read"]) > len(obs["read"])
     if case["kind"] == "linereader":
         return len(case["lines"]) >= 2
     if case["kind"] == "args":
